@@ -5,7 +5,10 @@ RULE = ("DirectSolverGiveCustomLU / TakeCustomLU on random problems 5x4 .. 9x16 
         "<= 2^-20*(|A||x|+|b|) at every node; through the friend hook the assembled CSR matrices are read: no column twice in a row "
         "and every entry equal to the operator's (allowance 2^-40*S); for the take strategy every CSR slot (column and value, storage order) "
         "equals the code-level assembly model GMGModel/DirectCode.lean run with the offset tables re-extracted from the header (exact "
-        "rationals + IEEE double bit comparison); both strategies return the same solution.  "
+        "rationals + IEEE double bit comparison); for the give strategy every CSR slot equals the code-level scatter model "
+        "GMGModel/DirectGiveCode.lean (accumulating stores in the sequential node order, tables DirectGive_* re-extracted from the header): "
+        "threads=1 exact rationals AND bit for bit in IEEE double (a slot that is not bit-identical is a disagreement), threads=4 (3-coloured "
+        "parallel assembly) column exact and value within 2^-40*S; both strategies return the same solution.  "
         "Distinct by (nr, nt, bc, geometry, profile)")
 
 
@@ -14,13 +17,13 @@ ROOT = os.path.dirname(os.path.dirname(os.path.dirname(os.path.abspath(__file__)
 
 
 def run(ctx):
-    # (T) the offset tables of the operator headers -> lean/Generated/Stencils.lean (input of GMGModel/DirectCode.lean and of the theorems about it)
+    # (T) the offset tables of the operator headers -> lean/Generated/Stencils.lean (input of GMGModel/DirectCode.lean, GMGModel/DirectGiveCode.lean and of the theorems about them)
     r = subprocess.run(["python3", os.path.join(ROOT, "tools", "stencil_extract.py")], capture_output=True, text=True)
     if r.returncode != 0:
         ctx.broken.append(("translator stencil_extract.py: the Stencil tables of the headers no longer have the extractable form", (r.stdout + r.stderr)[-2000:]))
     else:
         ctx.cov["stencil_tables"] = json.loads(r.stdout.strip().splitlines()[-1])
-    ctx.prove(extra_modules=["GMGProofs.Props.C04c"])
+    ctx.prove(extra_modules=["GMGProofs.Props.C04c", "GMGProofs.Props.C04g"])
     h = ctx.build_harness("h_ops")
     ctx.pipe([h, "direct", "24" if ctx.tier == "quick" else "300", "9", "16"], "direct", label="direct-solves")
     if ctx.tier == "thorough":
